@@ -680,6 +680,14 @@ class _Ops:
             self.held.append({"name": name, "entry": entry, "files": files, "tensor": t, "snap": t.numpy().copy(), "rec": rec})
             self.held = self.held[-3:]
             self.c["probes"]["read_result_held"] += 1
+        if op.get("edit_grid") and grid is not None and not out.violations:
+            # the reader's result belongs to the client: it re-centres the grid it was handed, in place (a later read
+            # of a file with the same header must still report the grid of the file)
+            try:
+                grid.center_(tuple(float(v) + 7.5 for v in grid.center())).spacing_(tuple(float(v) * 1.25 for v in grid.spacing()))
+                self.c["probes"]["read_result_grid_edited_in_place"] += 1
+            except Exception:
+                pass
         self._after_judged_read(name, out)
         return out
 
@@ -835,6 +843,8 @@ class _Gen:
         else:
             C = rng.weighted([(1, 3), (2, 2), (3, 2)])
             dtype = rng.choice(DTYPES)
+            if rng.chance(0.08):
+                dtype = "int64"  # beyond the five types the property names; used where the format can hold it
         size = [rng.weighted([(1, 1), (2, 1.5)] + [(n, 1.5) for n in range(3, 9)]) for _ in range(D)]
         gd = gen.grid_desc(rng, D, 3, 8, align_corners=True, oriented=True)
         if rng.chance(0.2):
@@ -914,6 +924,11 @@ class _Gen:
             desc = self.payload_desc(rng, pk)
             if caps.get("max_channels") == 1:
                 desc["C"] = 1
+            if desc["dtype"] == "int64" and suffix_of(name) not in (".mhd", ".nrrd", ".nhdr"):
+                # 64-bit integers are beyond the types the property names: used on the SimpleITK-backed MetaImage/NRRD
+                # paths only (MINC cannot hold them, vector NIfTI of this type is refused, and deepali's native .mha code
+                # writes them as MET_LONG / cannot read MET_LONG_LONG -- DESIGN.md section 4.3)
+                desc["dtype"] = "int32"
             if caps.get("oriented") is False:
                 desc["grid"]["angles"] = [0.0] * len(desc["grid"]["angles"])
                 desc["grid"]["flips"] = [False] * len(desc["grid"]["flips"])
@@ -968,6 +983,8 @@ class _Gen:
                     op["form"] = "str"
                 if op["entry"] in ("Image.read", "Image.from_uri", "read_image", "FlowField.read") and rng.chance(0.4):
                     op["hold"] = True
+                if rng.chance(0.25):
+                    op["edit_grid"] = True
                 if op["entry"] in ("Image.read", "Image.from_uri", "Grid.from_file", "Grid.from_sitk", "Grid.from_reader", "FlowField.read", "FlowField.from_image", "from_sitk", "FlowField.from_sitk") and rng.chance(0.3):
                     op["ac"] = bool(rng.chance(0.5))
                 if op["entry"] == "meta_reader":
@@ -1011,10 +1028,11 @@ class IoEngine:
             o = dict(op)
             o.pop("fault")
             out.append(o)
-        if "ac" in op:
-            o = dict(op)
-            o.pop("ac")
-            out.append(o)
+        for key in ("ac", "edit_grid", "hold"):
+            if key in op:
+                o = dict(op)
+                o.pop(key)
+                out.append(o)
         if op.get("form") not in (None, "str"):
             o = dict(op)
             o["form"] = "str"
